@@ -528,6 +528,9 @@ func (state *BuildState) OutputHashCheckers() []*fs.PathHasher {
 // LogParseResult logs the result of a target parsing.
 func (state *BuildState) LogParseResult(label BuildLabel, status BuildResultStatus, description string) {
 	if status == PackageParsed {
+		if verifhook.Enabled {
+			verifhook.Event("Report", "label", label.String(), "status", status.Category(), "code", fmt.Sprint(int(status)))
+		}
 		// We may have parse tasks waiting for this package to exist, check for them.
 		key := packageKey{Name: label.PackageName, Subrepo: label.Subrepo}
 		if ch := state.progress.pendingPackages.Get(key); ch != nil {
